@@ -380,7 +380,7 @@ def multi_body(case, ctx, tmp):
     rng = random.Random(case["seed"])
     fmt = case["fmt"]
     nf = rng.randint(2, 3)
-    mode = rng.choice(['stack', 'stack-align', 'concat', 'concat-keys'])
+    mode = rng.choice(['stack', 'stack-align', 'concat', 'concat-keys', 'concat-align'])
     dims = rng.sample(gen.DIMS[:4], rng.randint(1, 2))
     axes = ncc.gen_axes(rng, dims, fmt, minsize=2)
     names = rng.sample(['a', 'b', 'c'], rng.randint(1, 2))
@@ -398,7 +398,7 @@ def multi_body(case, ctx, tmp):
             for _ in range(rng.randint(1, 3)):
                 new.append(gen.absent_label(rng, l + new + sum([s["axes"][cd][0] for s in specs], []), kk))
             ax2[cd] = (new, kk, at)
-        elif mode == 'stack-align':
+        if mode in ('stack-align', 'concat-align') and (mode == 'stack-align' or len(dims) > 1):
             d2 = dims[-1]
             l, kk, at = axes[d2]
             l2 = [x for x in l if rng.random() < 0.7] + [gen.absent_label(rng, l, kk)]
@@ -428,15 +428,15 @@ def multi_body(case, ctx, tmp):
         except Exception as ex:
             e = ex
     else:
-        kw = {}
+        kw = {"align": True, "sort": rng.random() < 0.6} if (mode == 'concat-align' and len(dims) > 1) else {}
         keys = None
         if mode == 'concat-keys':
             alll = sum([s["axes"][cd][0] for s in specs], [])
             keys = rng.sample(alll, rng.randint(1, len(alll)))
-        label = "read_nc(%d files, %r, axis=%r, keys=%s)" % (nf, var, cd, codec.short(keys, 60))
-        g, exc = ctx.call(label, lambda: da.read_nc(list(fns), var, axis=cd, keys=keys), operands=())
+        label = "read_nc(%d files, %r, axis=%r, keys=%s, %s)" % (nf, var, cd, codec.short(keys, 60), kw)
+        g, exc = ctx.call(label, lambda: da.read_nc(list(fns), var, axis=cd, keys=keys, **kw), operands=())
         try:
-            e = da.concatenate_ds(singles, axis=cd)
+            e = da.concatenate_ds(singles, axis=cd, **kw)
             if keys is not None:
                 e = e.reindex_axis(keys, axis=cd)
         except Exception as ex:
